@@ -18,12 +18,10 @@ OPT_JSON = {"include_english": "english", "phonetic_suggestion": "phonetic_sugge
 VC_A = 0xA096
 
 
-def unknown_field_value(prog, st, struct, fname):
-    """A field the crate declares and this machinery does not know (a refactor added it): an unconstrained value of its type, so that the
-    code reading it is executed rather than refused. What depends on it is reported only after a native search re-finds it."""
-    from mirsym.values import INT_BITS
-    t = prog.struct_field_types.get(struct, {}).get(fname, "").strip()
-    tag = "%s_%s" % (struct.lower(), fname)
+def unknown_value(prog, st, t, tag, what):
+    """An unconstrained value of Rust type `t` (as far as the executor models it)."""
+    from mirsym.values import INT_BITS, some
+    t = t.strip()
     if t == "bool":
         return st.sym_bool(tag)
     if t == "char":
@@ -35,13 +33,23 @@ def unknown_field_value(prog, st, struct, fname):
         if st.choose([b, z3.Not(b)]) == 0:
             return SString([])
         return SString([st.sym_char(tag + "_0")])
-    if t.startswith("Option<"):
-        return none()
+    if t.startswith("Option<") and t.endswith(">"):
+        b = z3.Bool(tag + "_none")
+        if st.choose([b, z3.Not(b)]) == 0:
+            return none()
+        return some(unknown_value(prog, st, t[len("Option<"):-1], tag + "_some", what))
     if t.startswith("Vec<"):
         return SVec([])
     if t.startswith("HashMap<"):
         return SMap(tag)
-    return Opaque("%s.%s" % (struct, fname))
+    return Opaque(what)
+
+
+def unknown_field_value(prog, st, struct, fname):
+    """A field the crate declares and this machinery does not know (a refactor added it): an unconstrained value of its type, so that the
+    code reading it is executed rather than refused. What depends on it is reported only after a native search re-finds it."""
+    t = prog.struct_field_types.get(struct, {}).get(fname, "").strip()
+    return unknown_value(prog, st, t, "%s_%s" % (struct.lower(), fname), "%s.%s" % (struct, fname))
 
 
 def struct_of(prog, name, values, st=None):
@@ -66,7 +74,7 @@ def field(prog, agg, struct, name):
     return agg.fields[prog.structs[struct].index(name)]
 
 
-def mk_config(prog, st, fixed=None, layout_elems=()):
+def mk_config(prog, st, fixed=None, layout_elems=(), tag="opt_"):
     """Config with every boolean option symbolic unless fixed in `fixed` (name -> bool)."""
     fixed = fixed or {}
     vals = {"layout": SString(layout_elems), "database_dir": Opaque("PathBuf", ()), "user_dir": Opaque("PathBuf", ())}
@@ -75,7 +83,7 @@ def mk_config(prog, st, fixed=None, layout_elems=()):
         if o in fixed:
             opts[o] = fixed[o]
         else:
-            opts[o] = st.sym_bool("opt_" + o)
+            opts[o] = st.sym_bool(tag + o)
         vals[o] = opts[o]
     return struct_of(prog, "Config", vals), opts
 
